@@ -44,6 +44,14 @@ def programs(t):
         lines.append('T2((ESS<%d, %d>), (ESS<%d, %d>))' % (ld, le, rd, re))
         lines.append('T2((ESS<%d, %d>), (ESU<%d, %d>))' % (ld, le, rd, re))
         lines.append('T2((ESU<%d, %d>), (ESS<%d, %d>))' % (ld, le, rd, re))
+    # ... where the digits of the higher-exponent operand plus the exponent gap sit at a storage boundary (31..33, 63..65)
+    for (ld, le, rd, re) in ([(16, 0, 16, -16), (20, 4, 8, -8), (48, 0, 16, -16), (31, 0, 31, -1), (15, 0, 15, -17), (63, 0, 8, -1)] if not t else
+                             [(16, 0, 16, -16), (20, 4, 8, -8), (48, 0, 16, -16), (31, 0, 31, -1), (15, 0, 15, -17), (63, 0, 8, -1), (30, 0, 8, -1), (31, 0, 8, -2),
+                              (62, 0, 8, -1), (31, -2, 7, -35), (40, 0, 7, -25), (8, 8, 8, -16), (32, 0, 16, -32)]):
+        lines.append('T2((ESS<%d, %d>), (ESS<%d, %d>))' % (ld, le, rd, re))
+        lines.append('T2((ESS<%d, %d>), (ESS<%d, %d>))' % (rd, re, ld, le))
+        lines.append('T2((ESS<%d, %d>), (ESU<%d, %d>))' % (ld, le, rd, re))
+        lines.append('T2((ESU<%d, %d>), (ESS<%d, %d>))' % (rd, re, ld, le))
     # wide_integer
     wd = [64, 65, 100, 128, 200]
     for ld in wd:
